@@ -78,6 +78,10 @@ CHECKS = {
                 technique="runtime monitoring with fault injection on real loopback sockets: peers stall or drip at every protocol phase; elapsed-time classes, end-of-body signals and /proc thread/fd counts are the observations; hook H3 forces reader/watchdog interleavings; load probe + retry keep wall-clock verdicts honest",
                 text="Every stall phase (upload, status line, headers, blank line, length/close/chunked body positions, TLS handshake, CONNECT reply, inside the tunnel) x {silent, drip} x four timeout configurations, redirect chains exceeding T in total, converse histories (complete responses with up to five reads after end-of-body) and 24 forced reader/watchdog schedules are executed; the call must end with Err within T (or R) + 1.5 s, never report a cut body as complete, never report a completed response as timed out before the deadline, and leave no thread or descriptor behind.",
                 note="Timing classes are separated by more than an order of magnitude (bound T+1.5 s vs a 20 s hold); a suspect timing on a loaded machine is retried and then reported inconclusive. Connect phase, Windows branches not covered."),
+    "C17": dict(cat="exploration", design="DESIGN.md §3 C17",
+                technique="runtime monitoring on real loopback sockets: accept / refuse / black-hole listeners behind a name mapped by resolver hook H2, exhaustive behaviour assignments; listener logs, result and coarse elapsed-time classes compared with a reference racing order",
+                text="Every assignment of {accept, refuse, black-hole} to address lists of 0..3 entries per family, both family orders in the resolver output, four deadline classes (3 198 x 4 cells in thorough, a stride in quick), plus single-address and IP-literal fast paths: the call succeeds iff an address accepts in time, the request arrives at the first acceptor of the order v6[0], v4[0], v6[1], ..., k black-holes before it cost at most k x 200 ms + 1.5 s, all-refuse yields ConnectionRefused, and failures are reported within the attempts' own limits.",
+                note="Depends on Linux loopback behaviour (SYN drop on accept-queue overflow, verified by a probe connect per black-hole) and on coarse wall-clock classes; suspect timings are retried after a load probe."),
 }
 
 NOT_APPLICABLE = {}
